@@ -184,6 +184,9 @@ func (f fault) String() string {
 	if f.kind == "wfailexc" {
 		return fmt.Sprintf("wfail%d+exc@%d", f.arg, f.k)
 	}
+	if f.kind == "exccut" || f.kind == "excsilent" {
+		return fmt.Sprintf("%s%d@%d", f.kind, f.arg, f.k)
+	}
 	return fmt.Sprintf("%s@%d", f.kind, f.k)
 }
 
@@ -217,6 +220,29 @@ func body04(s scn, f fault, probe bool) Body {
 			// two faults: the client's write fails after byte arg and the server sends an exception
 			c.C.FailWriteAt = c.HsLen + f.arg
 			inj = &Inject{G: f.k, Stop: true, Bytes: c.W.Exception(excReadonly)}
+		case "exccut":
+			// two faults: the server starts an exception (a chain of two) and the stream ends
+			// after arg bytes of it
+			eb := c.W.Exception(excReadonly, excReadonly)
+			n := f.arg
+			if n > len(eb)-1 {
+				n = len(eb) - 1
+			}
+			inj = &Inject{G: f.k, Cut: true, Bytes: eb[:n]}
+		case "excsilent":
+			// the server starts an exception and falls silent after arg bytes of it
+			eb := c.W.Exception(excReadonly, excReadonly)
+			n := f.arg
+			if n > len(eb)-1 {
+				n = len(eb) - 1
+			}
+			inj = &Inject{G: f.k, Stop: true, Bytes: eb[:n]}
+		case "excbad":
+			// an exception packet whose body cannot be decoded (string length 2^63), on a
+			// connection that stays up
+			eb := append([]byte{}, c.W.Exception(excReadonly)[:5]...)
+			eb = append(eb, 0x80, 0x80, 0x80, 0x80, 0x80, 0x80, 0x80, 0x80, 0x80, 0x01)
+			inj = &Inject{G: f.k, Stop: true, Bytes: append(eb, c.W.Exception(excReadonly)[6:]...)}
 		case "unknown":
 			inj = &Inject{G: f.k, Stop: true, Bytes: []byte{99}}
 		case "unexpected":
@@ -295,7 +321,7 @@ func measure(s scn) (serverBytes, clientBytes, callbacks, termGate int, broken *
 
 // C04 — a failed query leaves the client closed or exactly at a packet boundary.
 func C04(c *vk.Ctx) {
-	c.Rule("scenarios {insert, streamed insert, LZ4/ZSTD inserts, insert whose input columns disagree on the row count (the sender fails inside encodeBlock), select, LZ4 select, select with logs/profile events} x faults {server exception injected at every gate of the peer script, server stream cut (EOF and reset) after byte k, client write failing after byte k, callback j failing, unknown packet code / well-formed unexpected packet / undecodable block at every gate, and the double fault caller-cancels + server exception at every gate} x all schedules of the sender, receiver, cancel-watch and peer threads (plus clock steps) up to the stated deviation bound; after Do returns the probe checks closed-or-boundary. distinct_nontrivial = executions (each is a distinct (scenario, fault, schedule) triple).")
+	c.Rule("scenarios {insert, streamed insert, LZ4/ZSTD inserts, insert whose input columns disagree on the row count (the sender fails inside encodeBlock), select, LZ4 select, select with logs/profile events} x faults {server exception injected at every gate of the peer script, server stream cut (EOF and reset) after byte k, client write failing after byte k, callback j failing, unknown packet code / well-formed unexpected packet / undecodable block at every gate, the double faults caller-cancels + server exception and failing write + server exception at every gate, and a server exception (chain of two) that does not arrive whole: stream cut or server silent after every byte of it (quick: every 2nd / 5th byte), or with an undecodable body, at every gate} x all schedules of the sender, receiver, cancel-watch and peer threads (plus clock steps) up to the stated deviation bound; after Do returns the probe checks closed-or-boundary. distinct_nontrivial = executions (each is a distinct (scenario, fault, schedule) triple).")
 	quick := c.Quick()
 	scs := append(scenarios(), badRows())
 	type job struct {
@@ -378,6 +404,33 @@ func C04(c *vk.Ctx) {
 			}
 		}
 		jobs = append(jobs, job{s, fault{kind: "none"}, gb, false})
+		// an exception that does not arrive whole: cut or silence after every byte of it,
+		// or a body that cannot be decoded
+		{
+			excLen := len(Wire{}.Exception(excReadonly, excReadonly))
+			estride := 1
+			if quick {
+				estride = 5
+				if core {
+					estride = 2
+				}
+			}
+			for g := 0; g <= term; g++ {
+				if quick && !core && g != term && g != 1 {
+					continue
+				}
+				for n := 1; n < excLen; n++ {
+					if n%estride != 0 && n != 1 && n != excLen-1 {
+						continue
+					}
+					jobs = append(jobs, job{s, fault{kind: "exccut", k: g, arg: n}, 0, false})
+					if !quick || (core && n%8 == 1) {
+						jobs = append(jobs, job{s, fault{kind: "excsilent", k: g, arg: n}, 0, false})
+					}
+				}
+				jobs = append(jobs, job{s, fault{kind: "excbad", k: g}, bb, false})
+			}
+		}
 		// two faults together: a failing write and an exception from the server
 		if s.name == "insert" || s.name == "insert-lz4" || !quick {
 			for g := 0; g <= term; g++ {
